@@ -77,7 +77,8 @@ func refSelection(s *spec.Spec, q selQuery) selRef {
 		host = q.Platform
 	}
 	platOK := func(t *spec.Target) bool {
-		return q.AllPlat || len(t.Platforms) == 0 || anyIn(t.Platforms, []string{host})
+		pl := s.EffectivePlatforms(t)
+		return q.AllPlat || len(pl) == 0 || anyIn(pl, []string{host})
 	}
 	pats := q.Patterns
 	if len(pats) == 0 {
@@ -191,6 +192,41 @@ func genQuery(r *rng.R, s *spec.Spec) selQuery {
 			}
 		}
 	}
+	// several patterns at once where one is a recursive wildcard of a package and another one
+	// names something in a package whose path merely starts with the same characters (p / p2)
+	if r.Chance(1, 5) {
+		has := map[string]bool{}
+		for _, p := range pkgs {
+			has[p] = true
+		}
+		for _, pr := range [][2]string{{"p", "p2"}, {"a", "a/b"}} {
+			if !has[pr[0]] || !has[pr[1]] {
+				continue
+			}
+			var there []*spec.Target
+			for _, t := range s.Targets {
+				if t.Pkg == pr[1] {
+					there = append(there, t)
+				}
+			}
+			if len(there) == 0 {
+				continue
+			}
+			t := rng.Pick(r, there)
+			other := rng.Pick(r, []string{t.Label(), "//" + pr[1] + ":all", ":" + t.Name})
+			if strings.HasPrefix(other, ":") {
+				q.Cwd = pr[1]
+			}
+			q.Patterns = []string{"//" + pr[0] + "/...", other}
+			if r.Chance(1, 2) {
+				q.Patterns = []string{other, "//" + pr[0] + "/..."}
+			}
+			if r.Chance(1, 3) {
+				q.Patterns = append(q.Patterns, "//"+pr[0]+":all")
+			}
+			break
+		}
+	}
 	for i, p := range q.Patterns { // "///..." is not a documented spelling of the root package
 		q.Patterns[i] = strings.Replace(p, "///...", "//...", 1)
 	}
@@ -237,6 +273,19 @@ func RunC12(tier string) int {
 		pf.Tests, pf.UserTags, pf.Platforms = true, true, true
 		pf.MinTargets, pf.MaxTargets, pf.MaxPackages = 5, 12, 5
 		s := spec.Gen(r, pf)
+		// package-level default_platforms in some packages (targets with their own selectors
+		// override them)
+		for _, pkg := range s.Packages() {
+			if r.Chance(1, 4) {
+				if s.DefaultPlatforms == nil {
+					s.DefaultPlatforms = map[string][]string{}
+				}
+				s.DefaultPlatforms[pkg] = rng.Pick(r, [][]string{{"linux/amd64"}, {"darwin/arm64"}, {"linux/amd64", "darwin/arm64"}, {"windows/amd64", "linux/arm64"}})
+			}
+		}
+		if len(s.DefaultPlatforms) > 0 {
+			run.Count("workspaces_with_default_platforms", 1)
+		}
 		// a platform-restricted dependency must not make the generated graph itself invalid: fine, it is a selection-time error
 		q := genQuery(r, s)
 		env, err := e1.NewEnv(st.Base, fmt.Sprintf("s%d", i), st.Grog, st.Vctl, s, grog.Config{NumWorkers: 4})
